@@ -105,6 +105,12 @@ def decVia {α : Type} (f : Tlv → Option α) (val : Option Bytes) : Option α 
     | none => none
     | some t => f t
 
+/-- "the value is present and RFC-decodes to `v`": it is a definite-length BER encoding (the
+independent relation `Spec.Enc`) of a tree that the ASN.1 reader `f` maps to `v`, and the
+executable decoder `decVia f` returns `v` on it -/
+def DecodesTo {α : Type} (f : Tlv → Option α) (val : Option Bytes) (v : α) : Prop :=
+  decVia f val = some v ∧ ∃ t bs, val = some bs ∧ Enc t bs ∧ f t = some v
+
 /-- maxInt of RFC 4511 / RFC 2696 -/
 def maxInt : Int := 2147483647
 
@@ -269,6 +275,19 @@ def syncInfoMsg (valBytes : Bytes) : Tlv :=
 /-- RFC 3062 §2: `PasswdModifyResponseValue ::= SEQUENCE { genPasswd [0] OCTET STRING OPTIONAL }`,
 with genPasswd present -/
 def passModRespTlv (genPasswd : Bytes) : Tlv := .cons 0 16 [.prim 2 0 genPasswd]
+
+/-- RFC 5805 §2.4: `txnEndRes ::= SEQUENCE { messageID MessageID OPTIONAL, updatesControls SEQUENCE OF
+updateControls SEQUENCE { messageID MessageID, controls Controls } OPTIONAL }` — here only the
+values without `updatesControls` -/
+def EndTxnRespSimpleTlv (mid : Option Int) (t : Tlv) : Prop :=
+  match mid with
+  | none => t = .cons 0 16 []
+  | some n => ∃ sz, IntEnc n sz ∧ t = .cons 0 16 [.prim 0 2 sz]
+
+/-- RFC 5805 §2.4: a `txnEndRes` whose `updatesControls` is not empty; `pre` are the earlier
+`updateControls` elements, the last one is `SEQUENCE { messageID, controls }` -/
+def endTxnRespRfcTlv (midPart pre : List Tlv) (sz : Bytes) (ctrls : List Tlv) : Tlv :=
+  .cons 0 16 (midPart ++ [.cons 0 16 (pre ++ [.cons 0 16 [.prim 0 2 sz, .cons 0 16 ctrls]])])
 
 /-- RFC 4511 §4.1.11: `Control ::= SEQUENCE { controlType LDAPOID, criticality BOOLEAN DEFAULT FALSE,
 controlValue OCTET STRING OPTIONAL }` -/
